@@ -21,6 +21,8 @@ def variants(rings=None, names=("c",)):
         vs += [{"host": "queued", "family": "spied", "drive": "dispatch", "chart_name": nm},
                {"host": "queued", "family": "spied", "drive": "queue", "chart_name": nm},
                {"host": "queued", "family": "spied", "drive": "queue", "live_spy": True, "live_trace": True, "chart_name": nm}]
+    vs += [{"host": "queued", "family": "spied", "drive": "queue", "clear_after": 1, "live_trace": True},
+           {"host": "queued", "family": "spied", "drive": "dispatch", "clear_after": 0}]
     if rings:
         vs = [dict(v, rings=rings) for v in vs]
     return vs
